@@ -16,6 +16,8 @@ func HC19_Isolation() {
 	if vTier() == 1 {
 		prof, capInc, relInc = hConfig2()
 	}
+	// creating and populating the very first world of the process writes no package-level state either
+	vFootprintStart()
 	x1 := hNew(prof, 6, capInc, relInc)
 	// the second world registers the same types in reverse order (different ids)
 	x2 := &hW{nu: 6}
@@ -26,6 +28,8 @@ func HC19_Isolation() {
 	}
 	pf := [5]int{3, 8, 1, 4, 9}[vChoice("prefix", 2+3*vTier())]
 	x1.prefix(pf)
+	nothing := new(int64)
+	vAssert(vIsolated(unsafe.Pointer(nothing)), "creating and populating a world writes no package-level state")
 	x2.prefix([5]int{3, 1, 8, 9, 4}[vChoice("prefix2", 1+vTier())])
 	x2.check()
 	// operations on world 1 only
